@@ -157,3 +157,45 @@ def short(xs, n=160):
         return json.dumps([dec(x) for x in xs], default=repr)[:n]
     except Exception:
         return json.dumps(xs, default=repr)[:n]
+
+
+def cut_fatal(steps):
+    out, dead = [], False
+    for st in steps:
+        cur = []
+        for o in st:
+            if dead:
+                break
+            cur.append(o)
+            if o[0] == 'fatal':
+                dead = True
+        out.append(cur)
+    return out
+
+
+def entry_point_mismatch(ast, items, stateless=False):
+    """rs.state.with_memory_store(pipeline) / rs.ops.multiplex(pipeline) on a PLAIN source must behave like the
+    pipeline on the explicit trace Create (0,), items, Completed (0,) followed by demux_observable: items in the
+    same steps, an unhandled mux error as on_error in its step, completion after the last item."""
+    ast = strip_taps(ast)
+    if 'route' in kinds(ast):
+        return None           # the dead-letter observable is a separate channel
+    ref = muxlib.run_mux(ast, single_trace(items))['steps']
+
+    def norm(steps):
+        out = []
+        for st in steps:
+            cur = []
+            for o in st:
+                cur.append(['fatal', o[2]] if o[0] == 'e' else o)
+            out.append(cur)
+        return cut_fatal(out)
+    for entry in (['memory_store', 'multiplex'] if stateless else ['memory_store']):
+        try:
+            got = muxlib.run_mux_plain_source(ast, items, entry)['steps']
+        except Exception as e:
+            return '%s raised %s' % (entry, type(e).__name__)
+        if norm(got) != norm(ref):
+            return 'with_%s on a plain source emits %s; the pipeline on the explicit mux trace emits %s' % (
+                entry, json.dumps(norm(got))[:220], json.dumps(norm(ref))[:220])
+    return None
